@@ -182,11 +182,15 @@ def scramble(x, depth=0):
         pass
 
 
+NOQUIET = [False]     # set by a harness that supplies its own stdout (e.g. an ASCII-only stream) for the calls
+
+
 def run_op(op, objects):
     """op = (name, callable(objects)) -> normalised result or ('EXC', type, text)."""
     from ..apivec import norm
+    import contextlib
     try:
-        with core.quiet():
+        with (contextlib.nullcontext() if NOQUIET[0] else core.quiet()):
             raw = op[1](objects)
             res = norm(raw)
             scramble(raw)
